@@ -387,9 +387,14 @@ def forward_signatures(func, calls, args, kwargs, sig):
         except UnresolvableName:
             raise UnknownForwards
         fwdargsvals = [rn(arg) for arg in fwdargs]
-        fwdargsvals.extend(rn(fwdvarargs))
         fwdkwargsvals = dict((n, rn(arg)) for n, arg in fwdkwargs.items())
-        fwdkwargsvals.update(rn(fwdvarkwargs))
+        try:
+            fwdargsvals.extend(rn(fwdvarargs))
+            fwdkwargsvals.update(rn(fwdvarkwargs))
+        except (TypeError, ValueError):
+            # the call unpacks something that is known and is not a
+            # sequence / a mapping: it cannot succeed
+            raise UnknownForwards
         using_partial = wrapped_func == functools.partial
         if using_partial:
             if not fwdargsvals:
